@@ -2,16 +2,16 @@
 
     Only the property theorems (closed by [exact] of lemmas of [OrswotMerge.v]).
 
-    The property has two alternative premises.  Proved here: premise (A) — all timestamps
-    of the history lie within one forgiveness period.  NOT proved: premise (B) — each
-    replica has applied a gap-free prefix of every origin's operations (possibly
-    spanning more than one period); the theorems below therefore carry premise (A) only and
-    the combined statement is named [..._partial].  Outside both premises the laws fail
-    (witness at the end), as the property allows. *)
+    The property has two alternative premises, and the laws are proved under each:
+    premise (A) — all timestamps of the history lie within one forgiveness period
+    (Section C03, [C03_merge_laws_within_one_period]); premise (B) — each replica has applied
+    a gap-free prefix of every origin's operations, the history spanning any number of
+    periods (Section C03_prefixes, [C03_merge_laws_gap_free_prefixes]).  Outside both
+    premises the laws fail (witness at the end), as the property allows. *)
 
 From stdpp Require Import gmap list.
 From Coq Require Import NArith.
-From DC Require Import Ts Orswot OrswotInv OrswotLww OrswotTimely OrswotPurge OrswotMerge.
+From DC Require Import Ts Orswot OrswotInv OrswotLww OrswotTimely OrswotPurge OrswotMerge OrswotMergeB.
 Open Scope N_scope.
 
 Section C03.
@@ -42,8 +42,8 @@ Section C03.
 
   (** Commutative, associative, idempotent; re-merging a state already merged changes
       nothing; replicas that merged each other (directly or through a third) answer every
-      lookup identically.  Premise (A) only — see the header. *)
-  Theorem C03_merge_laws_partial :
+      lookup identically.  Premise (A). *)
+  Theorem C03_merge_laws_within_one_period :
     forall a b c k,
       MInv H nsrc a -> MInv H nsrc b -> MInv H nsrc c ->
       view (set_merge a b) k = view (set_merge b a) k /\
@@ -62,6 +62,62 @@ Section C03.
     - exact (merged_transitively_indistinguishable H nsrc Hvalid Hwithin Hdistinct a b c k Ha Hb Hc).
   Qed.
 End C03.
+
+Section C03_prefixes.
+  (** Premise (B).  [H]: distinct valid stamps, NO bound on their span. *)
+  Context (H : list (N * N * bool)) (nsrc : nat).
+  Context (Hvalid : forall k t d, (k, t, d) ∈ H -> valid_ts t = true).
+  Context (Hdistinct : forall k t d k' d', (k, t, d) ∈ H -> (k', t, d') ∈ H -> k = k' /\ d = d').
+
+  (** Replicas that have applied a gap-free prefix of every origin's operations:
+      [BInvC C s] = [s] reflects exactly the operations at or below the cut [C] (origin ->
+      greatest stamp applied).  Reachable by applying, through any source, an operation all of
+      whose origin's earlier operations are already applied (the origin's next operation, or
+      a repeated one), and by merging such replicas. *)
+  Theorem C03_gap_free_prefix_replicas :
+    (nsrc > 0)%nat ->
+    BInvC H nsrc ∅ (empty_set nsrc) /\
+    (forall C s o, BInvC H nsrc C s -> (op_key o, op_ts o, op_del o) ∈ H -> (op_src o < nsrc)%nat ->
+       (forall k' t' d', (k', t', d') ∈ H -> ts_node t' = ts_node (op_ts o) -> t' < op_ts o -> applied H C k' t' d') ->
+       BInvC H nsrc (cut_max C {[ts_node (op_ts o) := op_ts o]}) (apply_op false s o).1) /\
+    (forall a b, BInv H nsrc a -> BInv H nsrc b -> BInv H nsrc (set_merge a b)).
+  Proof.
+    intros Hn. split; [exact (BInvC_empty H nsrc Hvalid Hdistinct Hn)|]. split.
+    - intros C s o. exact (apply_op_BInvC H nsrc Hvalid Hdistinct C s o).
+    - intros a b. exact (BInv_merge H nsrc Hvalid Hdistinct a b).
+  Qed.
+
+  (** What such a replica shows: for every key the greatest-stamp operation at or below its cut. *)
+  Theorem C03_prefix_replica_shows_lww :
+    forall C s k, BInvC H nsrc C s ->
+      (forall t d, view s k = Some (t, d) -> applied H C k t d) /\
+      (forall t d, applied H C k t d -> exists t' d', view s k = Some (t', d') /\ t <= t').
+  Proof. intros C s k (_ & _ & _ & Hs & Hc). split; intros t d; [apply Hs|apply Hc]. Qed.
+
+  Theorem C03_merge_is_per_key_maximum_prefixes :
+    forall a b, BInv H nsrc a -> BInv H nsrc b ->
+      forall k, view (set_merge a b) k = vmax (view a k) (view b k).
+  Proof. intros a b Ha Hb k. exact (merge_view_prefix H nsrc Hvalid Hdistinct a b k Ha Hb). Qed.
+
+  Theorem C03_merge_laws_gap_free_prefixes :
+    forall a b c k,
+      BInv H nsrc a -> BInv H nsrc b -> BInv H nsrc c ->
+      view (set_merge a b) k = view (set_merge b a) k /\
+      view (set_merge (set_merge a b) c) k = view (set_merge a (set_merge b c)) k /\
+      view (set_merge a a) k = view a k /\
+      view (set_merge (set_merge a b) b) k = view (set_merge a b) k /\
+      set_get (set_merge a b) k = set_get (set_merge b a) k /\
+      set_get (set_merge (set_merge a b) c) k = set_get (set_merge c (set_merge b a)) k.
+  Proof.
+    intros a b c k Ha Hb Hc. repeat split.
+    - exact (merge_commutative_B H nsrc Hvalid Hdistinct a b k Ha Hb).
+    - exact (merge_associative_B H nsrc Hvalid Hdistinct a b c k Ha Hb Hc).
+    - exact (merge_idempotent_B H nsrc Hvalid Hdistinct a k Ha).
+    - exact (merge_again_changes_nothing_B H nsrc Hvalid Hdistinct a b k Ha Hb).
+    - exact (merged_replicas_indistinguishable_B H nsrc Hvalid Hdistinct a b k Ha Hb).
+    - exact (merged_transitively_indistinguishable_B H nsrc Hvalid Hdistinct a b c k Ha Hb Hc).
+  Qed.
+End C03_prefixes.
 
 (** The merged set, key by key, for ANY two sets (no premise beyond disjoint entries and
     tombstones of the second): the executable characterisation the laws are derived from. *)
@@ -97,4 +153,56 @@ Example C03_nonvacuous :
   dead_list (set_merge c (set_merge b a)) = [(1, t2)].
 Proof.
   cbv zeta. split; [repeat constructor; set_solver|]. vm_compute. repeat split; reflexivity.
+Qed.
+
+(** Non-vacuity of premise (B): a history spanning far more than one forgiveness period
+    (900000 ticks): origin 1 writes key 1, much later deletes it and writes key 2; origin 2
+    writes key 1 in between.  Replica [a] has applied origin 1's first operation only,
+    replica [b] all of origin 1 and nothing of origin 2, replica [c] everything; each is a
+    gap-free-prefix replica, and the merges agree although [b]'s cut-off is beyond [a]'s only
+    entry. *)
+Example C03_nonvacuous_prefixes :
+  let t1 := mk_ts 10000000 0 1 in
+  let t2 := mk_ts 15000000 0 2 in
+  let t3 := mk_ts 20000000 0 1 in
+  let t4 := mk_ts 20000001 0 1 in
+  let H := [(1, t1, false); (1, t2, false); (1, t3, true); (2, t4, false)] in
+  let a := run_ops false (empty_set 2) [OIns 0 1 t1] in
+  let b := run_ops false (empty_set 2) [OIns 0 1 t1; ODel 1 1 t3; OIns 0 2 t4] in
+  let c := run_ops false (empty_set 2) [OIns 1 1 t1; OIns 0 1 t2; ODel 0 1 t3; OIns 1 2 t4] in
+  W < ts_tick t3 - ts_tick t1 /\
+  BInv H 2 a /\ BInv H 2 b /\ BInv H 2 c /\
+  entries_list (set_merge a b) = [(2, t4)] /\ dead_list (set_merge b a) = [(1, t3)] /\
+  entries_list (set_merge (set_merge a b) c) = entries_list (set_merge c (set_merge b a)).
+Proof.
+  cbv zeta.
+  set (t1 := mk_ts 10000000 0 1). set (t2 := mk_ts 15000000 0 2).
+  set (t3 := mk_ts 20000000 0 1). set (t4 := mk_ts 20000001 0 1).
+  set (H := [(1, t1, false); (1, t2, false); (1, t3, true); (2, t4, false)]).
+  destruct (hist_ok_spec H ltac:(vm_compute; reflexivity)) as [Hvalid Hdistinct].
+  pose proof (BInvC_empty H 2 Hvalid Hdistinct ltac:(lia)) as H0.
+  (* one step of a replica: the next operation of its origin *)
+  assert (Hstep : forall C s o, BInvC H 2 C s -> (op_key o, op_ts o, op_del o) ∈ H -> (op_src o < 2)%nat ->
+            (forall k' t' d', (k', t', d') ∈ H -> ts_node t' = ts_node (op_ts o) -> t' < op_ts o -> applied H C k' t' d') ->
+            BInvC H 2 (cut_max C {[ts_node (op_ts o) := op_ts o]}) (apply_op false s o).1)
+    by (intros C s o; exact (apply_op_BInvC H 2 Hvalid Hdistinct C s o)).
+  assert (Hin1 : (1, t1, false) ∈ H) by (subst H; set_solver).
+  assert (Hin2 : (1, t2, false) ∈ H) by (subst H; set_solver).
+  assert (Hin3 : (1, t3, true) ∈ H) by (subst H; set_solver).
+  assert (Hin4 : (2, t4, false) ∈ H) by (subst H; set_solver).
+  (* gap condition, decided on the concrete history *)
+  Ltac gap := apply gap_ok_spec; vm_compute; reflexivity.
+  split; [vm_compute; reflexivity|].
+  (* a *)
+  pose proof (Hstep _ _ (OIns 0 1 t1) H0 Hin1 ltac:(cbn; lia) ltac:(gap)) as Ha1.
+  (* b *)
+  pose proof (Hstep _ _ (ODel 1 1 t3) Ha1 Hin3 ltac:(cbn; lia) ltac:(gap)) as Hb2.
+  pose proof (Hstep _ _ (OIns 0 2 t4) Hb2 Hin4 ltac:(cbn; lia) ltac:(gap)) as Hb3.
+  (* c *)
+  pose proof (Hstep _ _ (OIns 1 1 t1) H0 Hin1 ltac:(cbn; lia) ltac:(gap)) as Hc1.
+  pose proof (Hstep _ _ (OIns 0 1 t2) Hc1 Hin2 ltac:(cbn; lia) ltac:(gap)) as Hc2.
+  pose proof (Hstep _ _ (ODel 0 1 t3) Hc2 Hin3 ltac:(cbn; lia) ltac:(gap)) as Hc3.
+  pose proof (Hstep _ _ (OIns 1 2 t4) Hc3 Hin4 ltac:(cbn; lia) ltac:(gap)) as Hc4.
+  split; [eexists; exact Ha1|]. split; [eexists; exact Hb3|]. split; [eexists; exact Hc4|].
+  vm_compute. repeat split; reflexivity.
 Qed.
